@@ -22,7 +22,7 @@ import (
 func init() {
 	core.Register(&core.Property{
 		ID:   "C08",
-		Rule: "all ordered pairs from the Integer boundary set {0,±1,±2,±46340,±46341,±65536,MaxInt32-1,MaxInt32,MinInt32+1,MinInt32} plus seeded random int32, and decimals with 0..30 fraction digits / up to 40 significant digits / x.5 ties, x {+,-,*,/,div,mod}; every value x {unary -, abs, round, round(p), floor, ceiling, truncate}; operands carried as literals, %env System values and FHIR integer/positiveInt/unsignedInt/decimal elements; results compared with math/big. distinct_nontrivial = distinct (operator, left class, right class, carrier pair, outcome class) where the exact result is not 0 or an operand itself",
+		Rule: "all ordered pairs from the Integer boundary set {0,±1,±2,±46340,±46341,±65536,MaxInt32-1,MaxInt32,MinInt32+1,MinInt32} plus seeded random int32, and decimals with 0..30 fraction digits / up to 40 significant digits / x.5 ties, x {+,-,*,/,div,mod}; every value x {unary -, abs, round, round(p), floor, ceiling, truncate}; operands carried as literals, %env System values and FHIR integer/positiveInt/unsignedInt/decimal elements; results compared with math/big. integer power for 18 bases x 20 exponents against math/big; distinct_nontrivial = distinct (operator, left class, right class, carrier pair, outcome class) where the exact result is not 0 or an operand itself",
 		Assumptions: []string{"math/big is the arithmetic reference; shopspring/decimal is used only to construct System.Decimal inputs",
 			"negative exact ties of round() accept either neighbour ('traditional round' is only defined for positives)",
 			"sqrt/exp/ln/log/power are transcendental: only exactly representable cases are value-checked"},
